@@ -96,6 +96,7 @@ def run(ctx):
                   "arithmetic in the value evaluators is checked.")
     ctx.clause += " Slice adaptors that panic on a zero size (windows/chunks*/rchunks*/step_by) receive a provably non-zero size."
     nonzero_sizes(ctx)
+    loop_progress(ctx)
 
 
 ZERO_PANICS = ("windows", "chunks", "chunks_exact", "chunks_mut", "chunks_exact_mut", "rchunks", "rchunks_exact", "rchunks_mut", "step_by")
@@ -161,3 +162,87 @@ def nonzero_sizes(ctx):
             ctx.ob("R2.NONZERO-SIZE", "%s:%s" % (f.id.rsplit("::", 1)[-1] if f.kind != "closure" else f.id.rsplit("::", 2)[-2] + "::closure", t), ok,
                    why if ok else "%s(n) panics when n == 0: %s" % (t, why), c.loc())
     ctx.floor("R2.sites", n, 5)
+
+
+def loop_progress(ctx):
+    """R3 LOOP-PROGRESS: a cursor loop (`while i < n`, `while self.pos < len`) over input in the parsers terminates only if every trip
+    round the loop moves the cursor.  For every loop in parsing::, sql::lexer and sql::parser whose guard compares a cursor that the
+    body also assigns, no cycle from the loop header back to the header avoids all assignments to that cursor (a `continue` on a path
+    that forgets `i += 1` spins forever on the same token)."""
+    from model import operand_place, place_fields
+    m = ctx.m
+
+    def ident(f, l, depth=5):
+        """('l', local) or ('f', field name) the compared value is read from"""
+        while depth > 0:
+            depth -= 1
+            ds = f.defs().get(l, [])
+            if len(ds) != 1 or ds[0][0] != "stmt" or ds[0][3][0] != "use":
+                return ("l", l)
+            q = operand_place(ds[0][3][1])
+            if q is None:
+                return ("l", l)
+            if q[1]:
+                fl = place_fields(q)
+                return ("f", fl[-1]) if fl else ("l", l)
+            l = q[0]
+        return ("l", l)
+    n = 0
+    for f in sorted(m.fns.values(), key=lambda f: f.id):
+        if not (f.id.startswith("parsing::") or f.id.startswith("sql::lexer") or f.id.startswith("sql::parser")):
+            continue
+        loops = f.loops()
+        items = list(loops.items()) if isinstance(loops, dict) else list(loops)
+        for k, (h, body) in enumerate(sorted(items, key=lambda x: x[0])):
+            cands = []
+            b, hops = h, 0
+            while hops < 6:
+                hops += 1
+                t = f.blocks[b]["t"]
+                if t[0] == "switch" and t[2] == "bool":
+                    pl = operand_place(t[1])
+                    kk, p, neg = f.origin(pl[0]) if pl and not pl[1] else (None, None, False)
+                    if kk == "rvalue" and p[0] == "bin" and p[1] in ("Lt", "Le", "Gt", "Ge", "Ne"):
+                        for side in (p[2], p[3]):
+                            q = operand_place(side)
+                            if q is not None and not q[1]:
+                                cands.append(ident(f, q[0]))
+                    break
+                sc = f.succ(b, unwind=False)
+                if len(sc) != 1 or sc[0] not in body:
+                    break
+                b = sc[0]
+            if not cands:
+                continue
+            stores = {}
+            for bb in body:
+                for s in f.blocks[bb]["s"]:
+                    if s[0] != "=":
+                        continue
+                    if not s[1][1]:
+                        key = ("l", s[1][0])
+                    else:
+                        fl = place_fields(s[1])
+                        key = ("f", fl[-1]) if fl else None
+                    if key in cands:
+                        stores.setdefault(key, set()).add(bb)
+            if not stores:
+                continue
+            n += 1
+            S = set().union(*stores.values())
+            seen, st, spin = set(), [x for x in f.succ(h, unwind=False) if x in body], False
+            while st:
+                b = st.pop()
+                if b in seen or b in S:
+                    continue
+                seen.add(b)
+                for x in f.succ(b, unwind=False):
+                    if x == h:
+                        spin = True
+                    elif x in body:
+                        st.append(x)
+            ctx.ob("R3.LOOP-PROGRESS", "%s#%d" % (f.id.rsplit("::", 2)[-2] + "::" + f.id.rsplit("::", 1)[-1] if f.id.count("::") > 1 else f.id, k), not spin,
+                   "every trip round the loop assigns the cursor" if not spin else
+                   "the loop at L%s can return to its header without moving its cursor: a `continue` (or fall-through) path forgets the increment and "
+                   "the parser spins forever on the same input position" % f.blocks[h].get("l"), "%s:%s" % (f.file, f.blocks[h].get("l")))
+    ctx.floor("R3.cursor_loops", n, 5)
